@@ -42,6 +42,8 @@ def shards(tier, seed):
         out.append({"name": f"random{i}", "kind": "random", "n": 700 if q else 15000})
     for i in range(4 if q else 12):
         out.append({"name": f"bad{i}", "kind": "bad", "part": i, "parts": 4 if q else 12, "reps": 2 if q else 12})
+    for i in range(1 if q else 4):
+        out.append({"name": f"node_reads{i}", "kind": "node_reads", "n": 40 if q else 400})
     return out
 
 
@@ -458,7 +460,75 @@ def run_bad(run: Run, spec, rng):
         run.samples.append({"bad_frame": "len=0 inserted after 2 good frames", "then": "1 good frame"})
 
 
+def run_node_reads(spec):
+    """The same property one layer further out: the reads are the node's own recv() calls on its socket.  Bursts
+    of watchdog requests whose total size sits on and around the node's receive chunk size (and multiples), each
+    written at once with nothing behind it, then bursts split at arbitrary points; one DWA per DWR, in order."""
+    from vf.simnet.world import World, REALM
+    from vf.simnet import msgs as M
+    rng = random.Random(h64("C05", spec["seed"], spec["name"]))
+    wit, evals, hashes = [], 0, set()
+    name = "peer1.verif.example"
+    w = World(dict(peers=[{"name": name}], apps=[{"tag": "a4", "id": 4, "peers": [name]}],
+                   node={"idle_timeout": 10 ** 6}))
+    h = w.h
+    cov = {"node_read_bursts": 0, "node_read_sizes": []}
+    try:
+        w.start()
+        sp = h.inbound(ip="10.1.0.1", port=50001)
+        h.settle()
+        sp.send(M.cer(name, REALM, auth=[4], hbh=1, e2e=1))
+        h.settle()
+        sp.drain()
+        hb = 100
+        sizes = [1000, 2044, 2048, 2052, 4092, 4096, 4100, 6144, 8192, 16384, 2048 * 3 - 4, 20, 60]
+        sizes += [rng.randrange(60, 9000) // 4 * 4 for _ in range(spec["n"])]
+        for total in sizes:
+            base = M.dwr(name, REALM, hbh=0, e2e=0)
+            k = max(1, total // (len(base) + 40))
+            ids, blob = [], b""
+            for j in range(k):
+                hb += 1
+                ids.append((hb, 0x50000 + hb))
+                blob += M.dwr(name, REALM, hbh=hb, e2e=0x50000 + hb)
+            pad = total - len(blob)
+            fixed = 20 + len(M.origin(name, REALM)) + 8
+            if pad >= fixed:
+                # one more request, padded with an optional AVP the node does not know, to the exact total
+                hb += 1
+                ids.append((hb, 0x50000 + hb))
+                body = M.origin(name, REALM) + R.enc_avp(18000001, b"p" * (pad - fixed), 0, 0)
+                last = R.enc_msg(280, app=0, flags=0x80, hbh=hb, e2e=0x50000 + hb, avps=body)
+                blob += last
+            seen = len(sp.frames)
+            cuts = [] if rng.random() < 0.6 else sorted(rng.sample(range(1, len(blob)), min(3, len(blob) - 1)))
+            prev = 0
+            for c in cuts + [len(blob)]:
+                sp.send(blob[prev:c])
+                prev = c
+                h.settle()
+            sp.drain()
+            got = [(f.h.hbh, f.h.e2e) for f in sp.frames[seen:] if f.h.code == 280 and not f.is_request]
+            evals += 1
+            hashes.add(h64("node-read", len(blob), tuple(cuts)))
+            cov["node_read_bursts"] += 1
+            cov["node_read_sizes"].append(len(blob))
+            if got != ids:
+                wit.append({"key": "framing.node_reads.messages_lost_or_reordered",
+                            "detail": {"burst_bytes": len(blob), "cuts": cuts, "requests": len(ids), "answers": len(got),
+                                       "closed": sp.node_sock.closed},
+                            "replay": {"op": "node_reads"}})
+                if sp.node_sock.closed:
+                    break
+    finally:
+        w.teardown()
+    cov["node_read_sizes"] = sorted(set(cov["node_read_sizes"]))[:40]
+    return {"evaluations": evals, "hashes": sorted(hashes), "witnesses": wit, "samples": [], "coverage": cov}
+
+
 def run_shard(spec):
+    if spec.get("kind") == "node_reads":
+        return run_node_reads(spec)
     run = Run(spec)
     rng = random.Random(h64("C05", spec["seed"], spec["name"]))
     from vf.simnet.harness import Inconclusive
@@ -472,6 +542,8 @@ def run_shard(spec):
 
 
 def replay(obj):
+    if obj.get("op") == "node_reads":
+        return run_node_reads({"name": "node_reads0", "seed": 0, "n": 40})
     run = Run({})
     if obj.get("op") == "good" and obj.get("frames"):
         run.good_case([bytes.fromhex(f) for f in obj["frames"]], tuple(obj["cuts"]), obj["mode"], "replay")
